@@ -1298,6 +1298,24 @@ func (x *runner) runC13() {
 	dmap.SetMapIndex(reflect.ValueOf("extra"), reflect.ValueOf(int32(1)))
 	a.Elem().FieldByName("Dbytes").Elem().Index(0).SetUint(99)
 	a.Elem().FieldByName("Drec").Elem().FieldByName("Id").SetInt(999)
+	// one level further in: an element record's field, a cell of an inner array, of an array in a map
+	deref := func(v reflect.Value) reflect.Value {
+		for v.Kind() == reflect.Ptr {
+			v = v.Elem()
+		}
+		return v
+	}
+	if dn := deref(a.Elem().FieldByName("Dnest")); dn.IsValid() && dn.Len() > 0 {
+		deref(dn.Index(0)).FieldByName("Id").SetInt(999)
+	}
+	if daa := deref(a.Elem().FieldByName("Daa")); daa.IsValid() && daa.Len() > 0 && deref(daa.Index(0)).Len() > 0 {
+		deref(daa.Index(0)).Index(0).SetInt(999)
+	}
+	if dma := deref(a.Elem().FieldByName("Dma")); dma.IsValid() && dma.Len() > 0 {
+		if inner := deref(dma.MapIndex(reflect.ValueOf("k"))); inner.IsValid() && inner.Len() > 0 {
+			inner.Index(0).SetInt(999)
+		}
+	}
 	after := x.b.Get(b2.Elem(), R("Defaults")).Canon()
 	fresh := x.b.Get(mk().Elem(), R("Defaults")).Canon()
 	r.OracleCases++
